@@ -32,7 +32,7 @@ MANIFEST = {
 
 def leg_a(ctx):
     inp = os.path.join(ctx.work, "mc_inputs.ndjson")
-    scs = rec_solver.mc_scenarios(ctx.sub_rng(2), ctx.n(120, 1200))
+    scs = rec_solver.mc_scenarios(ctx.sub_rng(2), ctx.n(600, 10000))
     for sc in scs:
         sc["variant"] = "UNIQUAC_AsImplemented" if sc["model"] == "UNIQUAC" else "NRTL"
     rec_solver.export_inputs(inp, scs)
